@@ -191,6 +191,8 @@ def run_one(kind, inp):
             r = check_add_extremes([pts], False)       # the same segment as a one-segment path: cut at its extremes
             if r == "skip":
                 r = None
+        if r is None and len(pts) > 2:
+            r = oc.stale_check(pts, hash(tuple(pts)) & 0xFFFFFF, [("findExtremes()", lambda g: tuple(g.findExtremes()))])
         return r
     return check_add_extremes([[tuple(p) for p in s] for s in inp["segs"]], inp["closed"])
 
